@@ -108,7 +108,10 @@ func checkClientIP(fatalf func(string, ...any), remote string, tok string, amoun
 		return
 	}
 	want := ap.Addr()
-	if got != want && got != want.WithZone("") && got.Unmap() != want.Unmap() {
+	// The zone is part of a link-local peer's address (fe80::1%eth0 and fe80::1%eth1
+	// are different peers), so it must be kept; a v4-mapped spelling of the same
+	// IPv4 address is accepted.
+	if got != want && got.Unmap() != want.Unmap() {
 		fatalf("client.ip token %q for RemoteAddr %q denotes %s, want %s", tok, remote, got, want)
 	}
 }
@@ -120,7 +123,7 @@ func TestC19_ClientIP(t *testing.T) {
 		p1 := rapid.IntRange(1, 65535).Draw(t, "p1")
 		var ip2 net.IP
 		z2 := z1
-		rel := rapid.SampledFrom([]string{"same", "sameaddr-otherport", "other", "other", "neighbour"}).Draw(t, "rel")
+		rel := rapid.SampledFrom([]string{"same", "sameaddr-otherport", "other", "other", "neighbour", "otherzone"}).Draw(t, "rel")
 		p2 := p1
 		switch rel {
 		case "same":
@@ -128,6 +131,11 @@ func TestC19_ClientIP(t *testing.T) {
 		case "sameaddr-otherport":
 			ip2 = ip1
 			p2 = rapid.IntRange(1, 65535).Draw(t, "p2")
+		case "otherzone": // same IP, different zone (only meaningful for IPv6)
+			ip2 = ip1
+			if ip1.To4() == nil {
+				z2 = rapid.SampledFrom([]string{"eth0", "eth1", "2", ""}).Draw(t, "z2o")
+			}
 		case "neighbour": // differs in the last byte only
 			ip2 = append(net.IP{}, ip1...)
 			ip2[len(ip2)-1] ^= byte(rapid.IntRange(1, 255).Draw(t, "flip"))
@@ -149,6 +157,7 @@ func TestC19_ClientIP(t *testing.T) {
 		checkClientIP(t.Fatalf, a1, t1, n1, e1)
 		checkClientIP(t.Fatalf, a2, t2, n2, e2)
 
+		var cl0 []string
 		ap1, _ := netip.ParseAddrPort(a1)
 		ap2, _ := netip.ParseAddrPort(a2)
 		sameIP := ap1.Addr().WithZone("").Unmap() == ap2.Addr().WithZone("").Unmap()
@@ -156,14 +165,17 @@ func TestC19_ClientIP(t *testing.T) {
 		if sameIP && sameZone && t1 != t2 {
 			t.Fatalf("same address, different tokens: %q -> %q, %q -> %q", a1, t1, a2, t2)
 		}
-		if !sameIP && t1 == t2 {
+		if (!sameIP || !sameZone) && t1 == t2 {
 			t.Fatalf("different addresses share token %q: %q vs %q", t1, a1, a2)
 		}
 
 		v6 := ip1.To4() == nil || ip2.To4() == nil
+		if sameIP && !sameZone {
+			cl0 = append(cl0, "same-ip-different-zone")
+		}
 		sharedPrefix := !sameIP && strings.SplitN(a1, ":", 2)[0] == strings.SplitN(a2, ":", 2)[0]
 		nt := v6 || (sameIP && p1 != p2) || sharedPrefix
-		var cl []string
+		cl := cl0
 		if v6 {
 			cl = append(cl, "ipv6")
 		}
